@@ -30,6 +30,7 @@ type PropConfig struct {
 	Assumptions  []string `json:"assumptions"`
 	ThoroughOnly []string `json:"thorough_only"` // obligation-name prefixes only run in the thorough tier
 	NoSafety     []string `json:"no_safety"`     // functions whose safety obligations are assumed (covered by another property)
+	TimeoutMs    int      `json:"timeout_ms"`    // per-obligation solver timeout of the quick tier (default 10000)
 }
 
 func loadPropConfig(id string) (*PropConfig, error) {
@@ -57,6 +58,7 @@ func discharge(fx *FnExec, obls []*Obligation, opt dischargeOpts) {
 		o      *Obligation
 		script string
 		alts   []string
+		model  string
 	}
 	var jobs []job
 	c := fx.c
@@ -81,7 +83,8 @@ func discharge(fx *FnExec, obls []*Obligation, opt dischargeOpts) {
 				valNames = append(valNames, v.Name)
 			}
 		}
-		script, gvs := c.QueryGV(o.Assume, goal, vals, opt.timeoutMs)
+		script := c.Query(o.Assume, goal, nil, opt.timeoutMs)
+		modelScript, gvs := c.QueryGV(o.Assume, goal, vals, opt.timeoutMs)
 		o.GVKeys = map[string]string{}
 		for i, k := range gvs {
 			if k != "" {
@@ -92,7 +95,7 @@ func discharge(fx *FnExec, obls []*Obligation, opt dischargeOpts) {
 		for _, alt := range o.Alts {
 			alts = append(alts, c.Query(o.Assume, c.Implies(o.PC, alt), nil, opt.timeoutMs))
 		}
-		jobs = append(jobs, job{o, script, alts})
+		jobs = append(jobs, job{o, script, alts, modelScript})
 	}
 	sem := make(chan struct{}, opt.parallel)
 	var wg sync.WaitGroup
@@ -104,6 +107,11 @@ func discharge(fx *FnExec, obls []*Obligation, opt dischargeOpts) {
 			defer func() { <-sem }()
 			r := Solve(j.script, opt.workdir, j.o.Name, opt.timeoutMs, opt.all)
 			j.o.Status, j.o.Backend, j.o.Ms, j.o.Output = r.Status, r.Backend, r.Ms, r.Output
+			if r.Status == "sat" && !j.o.Cover {
+				if r2 := Solve(j.model, opt.workdir, j.o.Name+".model", opt.timeoutMs, false); r2.Status == "sat" {
+					j.o.Output = r2.Output
+				}
+			}
 			if j.o.Status != "unsat" && !j.o.Cover {
 				for i, s2 := range j.alts {
 					r2 := Solve(s2, opt.workdir, fmt.Sprintf("%s.alt%d", j.o.Name, i), opt.timeoutMs, false)
@@ -194,6 +202,13 @@ func cmdFunc(args []string) int {
 	}
 	for _, n := range rep.Bounded {
 		fmt.Println("bounded:", n)
+	}
+	for _, so := range eng.frameObligations(fn, eng.db.Funcs[args[1]]) {
+		if !so.OK {
+			fmt.Println("FAIL", so.Name, so.Detail)
+		} else {
+			fmt.Println("ok  ", so.Name)
+		}
 	}
 	fmt.Println("inlined:", rep.Inlined, "used contracts:", rep.Used, "unannotated loops:", rep.Unannotated)
 	return 0
